@@ -214,7 +214,7 @@ CLAIMED.update({
             'word attached inside its parent span), json (shape/categories/labels/attributes; the text of json.dumps(indent=4) is modelled to the character and a JSON reader written in Lean reads it back to sentence numbers, n-best order, scores and trees: json_roundtrip, json_text_decode; also run on the real output against json.loads), deriv (an independent Lean reader of '
             'the ASCII art recovers words, shape, categories and rule symbols of every printed derivation: deriv_decode; it is '
             'also run on the real output), the conll table (an independent Lean reader of the ten-column table: conll_decode, '
-            'with the exact necessity of its hypotheses conll_decode_iff, conll_rows; a document reader for the whole output: conll_doc_decode, main_conll_reads_back; both also run on the real output; likewise line_doc_decode / main_line_reads_back for the whole output of auto, auto_extended, ptb, ja), prolog (an independent Lean term reader recovers sentence numbers, rule functors, category '
+            'with the exact necessity of its hypotheses conll_decode_iff, conll_rows; a document reader for the whole output: conll_doc_decode, main_conll_reads_back; both also run on the real output; likewise line_doc_decode / main_line_reads_back for the whole output of auto, auto_extended, ptb, ja and block_doc_decode / main_deriv_reads_back for deriv), prolog (an independent Lean term reader recovers sentence numbers, rule functors, category '
             'spellings, the extra category arguments and all leaf fields of both the English and the Japanese format: '
             'prolog_en_decode, prolog_ja_decode; also run on the real output), html (a Lean reader decodes the MathML of every tree back to nesting, words, labels and '
             'category segments), record numbering by sentence for every line format and prolog. All twelve printers '
